@@ -25,6 +25,17 @@ fn dispatch(cmd: &str) -> Option<Handler> {
     s_basic::dispatch(cmd).or_else(|| s_lex::dispatch(cmd)).or_else(|| s_parse::dispatch(cmd)).or_else(|| s_cfg::dispatch(cmd)).or_else(|| s_yaml::dispatch(cmd))
 }
 
+/// CPU time (user + system) used by this process so far, in milliseconds.  The watchdog measures CPU time, not wall
+/// time: a hang burns CPU, while a command that is merely starved by other load on the machine does not.
+fn cpu_ms() -> u64 {
+    let s = std::fs::read_to_string("/proc/self/stat").unwrap_or_default();
+    // fields after the parenthesised command name: state ppid ... utime (14th) stime (15th), in clock ticks (100/s)
+    let rest = s.rsplit(')').next().unwrap_or("");
+    let f: Vec<&str> = rest.split_whitespace().collect();
+    let ticks = f.get(11).and_then(|x| x.parse::<u64>().ok()).unwrap_or(0) + f.get(12).and_then(|x| x.parse::<u64>().ok()).unwrap_or(0);
+    ticks * 10
+}
+
 fn main() {
     let args: Vec<String> = std::env::args().collect();
     let path = &args[1];
@@ -41,17 +52,21 @@ fn main() {
     std::panic::set_hook(Box::new(|_| {}));
     let file = std::fs::File::open(path).expect("commands file");
     let reader = std::io::BufReader::new(file);
-    // watchdog: `tick` holds the start time (ms since start) of the running command, 0 = idle
+    // watchdog: `tick` holds the start (ms of CPU time used so far, +1) of the running command, 0 = idle;
+    // `wall` the wall-clock start: the wall limit is 30 times the CPU limit (a last resort against a sleeping hang)
     let tick = Arc::new(AtomicU64::new(0));
+    let wall = Arc::new(AtomicU64::new(0));
     let t0 = std::time::Instant::now();
     {
         let tick = tick.clone();
+        let wall = wall.clone();
         std::thread::spawn(move || loop {
             std::thread::sleep(std::time::Duration::from_millis(50));
             let started = tick.load(Ordering::SeqCst);
             if started != 0 {
-                let now = t0.elapsed().as_millis() as u64 + 1;
-                if now > started + limit_ms {
+                let now = cpu_ms() + 1;
+                let wnow = t0.elapsed().as_millis() as u64 + 1;
+                if now > started + limit_ms || wnow > wall.load(Ordering::SeqCst) + 30 * limit_ms {
                     let out = std::io::stdout();
                     let mut out = out.lock();
                     let _ = writeln!(out, "TIMEOUT");
@@ -74,7 +89,8 @@ fn main() {
             match dispatch(parts[0]) {
                 None => "BADCMD".to_string(),
                 Some(h) => {
-                    tick.store(t0.elapsed().as_millis() as u64 + 1, Ordering::SeqCst);
+                    wall.store(t0.elapsed().as_millis() as u64 + 1, Ordering::SeqCst);
+                    tick.store(cpu_ms() + 1, Ordering::SeqCst);
                     let r = std::panic::catch_unwind(|| h(&parts[1..]));
                     tick.store(0, Ordering::SeqCst);
                     match r {
